@@ -114,7 +114,7 @@ def build(ctx, coq_targets, need_harness=True, need_model=True, need_shim=False,
         if need_shim:
             src = os.path.join(ROOT, "shim", "kshim.c")
             if not os.path.exists(KSHIM) or os.path.getmtime(KSHIM) < os.path.getmtime(src):
-                rc, out = sh(["gcc", "-O2", "-shared", "-fPIC", "-o", KSHIM, src, "-ldl", "-lpthread"], timeout=120)
+                rc, out = sh(["gcc", "-O2", "-fno-delete-null-pointer-checks", "-shared", "-fPIC", "-o", KSHIM, src, "-ldl", "-lpthread"], timeout=120)
                 if rc != 0:
                     ctx.build_errors["shim"] = out[-3000:]
 
